@@ -61,6 +61,14 @@ pub fn any_coords() -> Coordinates {
         Elevation::try_from(any_f64_in(-420., 8848.)).unwrap(),
     )
 }
+/// a Julian Day whose civil date is any day of a common or a leap year (incl. 29 February)
+pub fn any_date_jd() -> JulianDay {
+    let ord: u32 = kani::any();
+    kani::assume(ord >= 1 && ord <= 366);
+    let date = chrono::NaiveDate::from_yo_opt(if kani::any() { 2023 } else { 2024 }, ord);
+    kani::assume(date.is_some());
+    JulianDay { date: date.unwrap(), gmt: Gmt::try_from(0.).unwrap(), value: 2460116.5 }
+}
 pub fn fixed_jd() -> JulianDay {
     JulianDay { date: chrono::NaiveDate::from_yo_opt(2023, 172).unwrap(), gmt: Gmt::try_from(0.).unwrap(), value: 2460116.5 }
 }
